@@ -215,6 +215,24 @@ print("ok" if out == want and reads[0] == 4 else
 ]
 
 
+# genuine, NOT repaired (known_findings.json status=known): expected to show
+# on the pinned snapshot and on /repo alike
+KNOWN = [
+  ("K1 C17 close(wait=True) never returns for a player left paused", r"""
+import time
+po.write_stream = lambda st, data, n, f: time.sleep(.01)   # a real-time device
+aio = AudioIO(True)
+th = aio.play([0.] * 4000, chunk_size=4)
+time.sleep(.05)
+th.pause(); time.sleep(.05)
+print("ok" if within(3, aio.close) else
+      "DEFECT: close() of a wait=True manager did not return within 3 s "
+      "(player parked in go.wait())")
+th.stop()
+"""),
+]
+
+
 def run(root, code):
   env = dict(os.environ)
   env["PYTHONPATH"] = root
@@ -253,6 +271,12 @@ def main():
       print("%s\n    %s: %s\n    repaired tree   : %s"
             % (title, label, a, b))
       if not a.startswith("DEFECT") or b != "ok":
+        bad += 1
+    for title, code in KNOWN:
+      a, b = run(old, code), run(REPO, code)
+      print("%s\n    pinned snapshot : %s\n    /repo (not repaired): %s"
+            % (title, a, b))
+      if not a.startswith("DEFECT") or not b.startswith("DEFECT"):
         bad += 1
     return 1 if bad else 0
   finally:
